@@ -72,7 +72,7 @@ func describe(tr string, gp gridPoint, variant string, p *plan) caseDesc {
 func TestC13MemGrid(t *testing.T) {
 	env := vrun.LoadEnv()
 	grid := gridPoints(env.Thorough())
-	variants := env.Pick(2, 4)
+	variants := env.Pick(6, 8)
 	meta := vrun.Meta{
 		Property: "C13", Workload: "TestC13MemGrid", Total: len(grid) * variants, Exhaustive: env.Thorough(),
 		Rule: "case = (grid point, variant). Grid = every mode {off, per-message, context-takeover} x level 0..9 x windowBits " +
@@ -224,6 +224,10 @@ func exchangeFailures(ex *exchangeResult, prefix string, concurrent, realSocket 
 			}
 			return mk(vrun.Violation("peer Read failed on a healthy link: "+err.Error(), tr+":"+pick.kind+"-error:"+slug,
 				map[string]any{"side": pick.side, "at": pick.at, "error": err.Error(), "all_errors": all, "via": prefix, "case": desc}))
+		}
+		if strings.Contains(err.Error(), "independent decoder:") {
+			return mk(vrun.Violation("a frame on the wire is not decodable by the independent decoder of the documented framing", prefix+":frame-undecodable"+cc,
+				map[string]any{"side": pick.side, "at": pick.at, "error": err.Error(), "case": desc}))
 		}
 		if realSocket && errIsEnvironmental(err) {
 			return mk(vrun.Inconcl(pick.kind + " error of environmental kind: " + err.Error()))
